@@ -6,5 +6,5 @@ import "runtime"
 
 const RaceEnabled = true
 
-func raceOff() { runtime.RaceDisable() }
-func raceOn()  { runtime.RaceEnable() }
+func RaceOff() { runtime.RaceDisable() }
+func RaceOn()  { runtime.RaceEnable() }
